@@ -131,14 +131,16 @@ theorem C13_lost_ack_counterexample :
       (fun s => (s.closedByWD, s.answeredAtClose)) = some (true, true) := by decide
 
 /-- (iv) server side: a DWR naming Origin-Host and Origin-Realm from a peer that completed the
-    handshake is answered with Result-Code 2001, the local identity and the request's
-    identifiers, application id and command (the answer header mirrors the request) -/
+    handshake is answered with Result-Code 2001, the local identity (with the configured
+    Origin-State-Id) and the request's identifiers, application id and command (the answer header
+    mirrors the request) -/
 theorem C13_dwa (cfg : Settings) (req : Header) :
     (dwa cfg req).hdr.hbh = req.hbh ∧ (dwa cfg req).hdr.e2e = req.e2e ∧ (dwa cfg req).hdr.app = req.app ∧
     (dwa cfg req).hdr.cmd = req.cmd ∧
     (dwa cfg req).avps = [newAVP C.resultCode 64 0 (.fix T.u32 2001),
-      newAVP C.originHost 64 0 (.str T.ident cfg.originHost), newAVP C.originRealm 64 0 (.str T.ident cfg.originRealm)] := by
-  simp [dwa, mkMsg, answerHdr, Msg.addAVP]
+      newAVP C.originHost 64 0 (.str T.ident cfg.originHost), newAVP C.originRealm 64 0 (.str T.ident cfg.originRealm)]
+      ++ (if cfg.originStateId ≠ 0 then [newAVP C.originStateId 64 0 (.fix T.u32 cfg.originStateId)] else []) := by
+  by_cases h : cfg.originStateId = 0 <;> simp [dwa, mkMsg, answerHdr, Msg.addAVP, h]
 
 /-- Several connections of one `sm.Client` share the state machine's mux and so its DWA handler.
     With the handler finding the watchdog in the context of the connection the answer arrived on
